@@ -301,6 +301,8 @@ def check_sim(ctx, c):
     check_accessor_identities(cc, traj.system, traj, data)
 
 
+RULE = RULE + " " + ('Since seeded round 4 the lookup facet asks the same trajectory object a second question (the same number in another time unit, as UnitValue or string) and then the first question again.')
+
 FACETS = [
     Facet("accessors", check_accessors, strategy=strat_accessors, examples=(1500, 40000), shards=(8, 16)),
     Facet("lookup", check_lookup, strategy=strat_lookup, examples=(6000, 200000), shards=(8, 16)),
